@@ -113,6 +113,33 @@ Theorem C03_kalman_S_is_quasisep (F : fieldType) sq lt X (k : sskernel F X) (x0 
 Proof. move=> ps hc ac; exact: (kalman_S_is_quasisep sq lt). Qed.
 Print Assumptions C03_kalman_S_is_quasisep.
 
+(* the dense and the quasiseparable solver compute THE SAME factor: for a symmetric quasiseparable matrix with positive
+   pivots, the Cholesky-Banachiewicz recursion of the dense model (Model/Dense.v, the stand-in for LAPACK) applied to the dense
+   matrix and the O(N) recursion of SymmQSM.cholesky applied to the generators denote the same lower-triangular matrix -- both
+   are sound, and the factor with positive diagonal is unique.  Hence dot_triangular, solve_triangular, samples for a key,
+   log probability and normalisation coincide between the two solvers. *)
+From TinyGP Require Import Model.Dense Model.QSMSolve Theory.QSMChol Theory.DenseThy Theory.GPThy.
+Import Order.TTheory Num.Theory.
+Theorem C03_dense_and_quasisep_factor_equal (R : rcfType) (d : vec R) (l : tri R) (S : mat R) :
+  let rops := @fops R Num.sqrt (fun x y => x < y) in
+  let n := tn l in let fac := cholesky rops d l in
+  mx_of n n S = den n (Symm d l) ->
+  (forall m, (0 < m <= n)%N -> 0 < \det (mx_of m m S)) ->
+  (forall k, (k < n)%N -> 0 < chol_pivot d l k) ->
+  mx_of n n (dense_chol rops n S) = den n (Lower fac.1 fac.2).
+Proof.
+move=> rops n fac eS minors piv.
+have sym : (mx_of n n S)^T = mx_of n n S.
+  rewrite eS /= !linearD /= trmxK -addrA [(den_sl_at n l)^T + _]addrC addrA; congr (_ + _ + _).
+  by apply/matrixP => i j; rewrite !mxE eq_sym; case: eqP => // ->.
+have [lp1 e1] := dense_chol_sound_spd sym minors.
+have [_ tnE pos e2] := chol_sound piv.
+apply: chol_unique => //; last by rewrite e1 e2 eS.
+split; last by move=> i; rewrite den_lower_diag; exact: pos.
+by move=> i j ij; have /is_trig_mxP := den_lower_trig n fac.1 fac.2; apply.
+Qed.
+Print Assumptions C03_dense_and_quasisep_factor_equal.
+
 (* end to end for the built-in kernels (W1/W2 join): for the state-space tables REGENERATED from kernels/quasisep.py the
    hypotheses above hold (laws, constant observation model, commuting transitions: W2/QSLaws.v, W2/QSStationary.v), so the
    covariance the Kalman recursion factorises is exactly the matrix the quasiseparable solver factorises, on any inputs *)
